@@ -771,7 +771,7 @@ class KernelProof(object):
         for name, assumptions, goal in ex.obligations:
             inst = self.lemma_instances(assumptions + [goal])
             reg.prove(name, assumptions + inst, goal, function=where, engine="cvc",
-                      timeout_ms=60000, nl=False)
+                      timeout_ms=60000, nl=False, replay=self.replay)
         ex.obligations = []
         # ---- body contract: the real statements against the spec -------------
         if "stmts" not in body_nodes:
